@@ -150,33 +150,67 @@ static Val do_load(State &s, const Val &p, unsigned bits, bool want_ptr)
   check_access(s, p, size, "load");
   const Obj &o = *find_obj(s, p.obj);
   if (p.conc) return load_conc(s, o, p.c, bits, want_ptr);
-  std::vector<uint64_t> offs = feasible_values(s, *p.e, MAX_SYM_TARGETS);
-  if (offs.size() > MAX_SYM_TARGETS) die("symbolic load offset with more than %u targets in %s", MAX_SYM_TARGETS, o.name.c_str());
-  if (offs.empty()) throw PathEnd{"infeasible"};
-  uint64_t osz = o.size;
-  Val acc; bool first = true;
-  for (uint64_t off : offs)
+  // enumerate the feasible offsets; through the narrow variables they depend on when possible
+  Support sp = small_support(*p.e, 16);
+  std::vector<std::pair<z3::expr, uint64_t>> targets;     // (condition, offset)
+  if (sp.ok)
   {
-    if (off + size > osz) continue;
-    Val v = load_conc(s, o, off, bits, want_ptr);
-    if (first) { acc = v; first = false; continue; }
-    bool vp = v.isptr && v.obj >= 0, ap = acc.isptr && acc.obj >= 0;
-    if (vp || ap)
+    z3::expr cat = support_cat(sp);
+    std::vector<uint64_t> as = feasible_values(s, cat, 70000);
+    std::map<uint64_t, std::vector<uint64_t>> byoff;
+    for (uint64_t a : as) byoff[eval_under(sp, *p.e, a)].push_back(a);
+    if (byoff.size() > MAX_SYM_TARGETS) die("symbolic load offset with more than %u targets in %s", MAX_SYM_TARGETS, o.name.c_str());
+    for (auto &kv : byoff)
     {
-      if (vp && ap && v.obj == acc.obj)
-      {
-        Val t = mk_sym(64, z3::ite(*p.e == Z.bv_val(off, 64), ex(v), ex(acc)));
-        acc = with_off(acc, t); continue;
-      }
-      // pointers to different objects: case split on the offset
-      ForkReq fr; for (uint64_t o2 : offs) fr.alts.push_back(*p.e == Z.bv_val(o2, 64));
-      throw fr;
+      z3::expr c = Z.bool_val(false);
+      for (uint64_t a : kv.second) c = c || (cat == Z.bv_val(a, sp.bits));
+      targets.push_back({c.simplify(), kv.first});
     }
-    Val t = mk_sym(bits, z3::ite(*p.e == Z.bv_val(off, 64), ex(v), ex(acc)));
+  }
+  else
+  {
+    std::vector<uint64_t> offs = feasible_values(s, *p.e, MAX_SYM_TARGETS);
+    if (offs.size() > MAX_SYM_TARGETS) die("symbolic load offset with more than %u targets in %s", MAX_SYM_TARGETS, o.name.c_str());
+    for (uint64_t off : offs) targets.push_back({*p.e == Z.bv_val(off, 64), off});
+  }
+  if (targets.empty()) throw PathEnd{"infeasible"};
+  uint64_t osz = o.size;
+  // load every target, group by loaded value when pointers to different objects are involved
+  std::vector<std::pair<z3::expr, Val>> vals;
+  bool diff_objs = false; int first_obj = -2;
+  for (auto &t : targets)
+  {
+    if (t.second + size > osz) continue;
+    Val v = load_conc(s, o, t.second, bits, want_ptr);
+    int ob = (v.isptr && v.obj >= 0) ? v.obj : -1;
+    if (first_obj == -2) first_obj = ob; else if (ob != first_obj) diff_objs = true;
+    vals.push_back({t.first, v});
+  }
+  if (vals.empty()) throw PathEnd{"infeasible"};
+  if (diff_objs)
+  {
+    // pointers to different objects: case split, one alternative per distinct pointer value
+    std::map<std::pair<int, uint64_t>, z3::expr> groups; std::vector<std::pair<int, uint64_t>> order;
+    for (auto &cv : vals)
+    {
+      const Val &v = cv.second;
+      std::pair<int, uint64_t> key = {(v.isptr && v.obj >= 0) ? v.obj : -1, v.conc ? v.c : (uint64_t)Z3_get_ast_id(Z, *v.e) + (1ULL << 62)};
+      auto it = groups.find(key);
+      if (it == groups.end()) { groups.emplace(key, cv.first); order.push_back(key); }
+      else it->second = it->second || cv.first;
+    }
+    ForkReq fr; for (auto &k : order) fr.alts.push_back(groups.at(k).simplify());
+    throw fr;
+  }
+  Val acc = vals[0].second;
+  for (size_t i = 1; i < vals.size(); i++)
+  {
+    const Val &v = vals[i].second;
+    if (first_obj >= 0) { acc = with_off(acc, mk_sym(64, z3::ite(vals[i].first, ex(v), ex(acc)))); continue; }
+    Val t = mk_sym(bits, z3::ite(vals[i].first, ex(v), ex(acc)));
     if (want_ptr) { t.isptr = true; t.obj = -1; }
     acc = t;
   }
-  if (first) throw PathEnd{"infeasible"};
   return acc;
 }
 
